@@ -366,6 +366,18 @@ func (w *world) isVersion(name string, md5 string) bool {
 	return false
 }
 
+// isVersionSize: some registered version of the name has that size
+func (w *world) isVersionSize(name string, size int64) bool {
+	w.regMu.Lock()
+	defer w.regMu.Unlock()
+	for _, v := range w.registry[name] {
+		if int64(len(v.Data)) == size {
+			return true
+		}
+	}
+	return false
+}
+
 func (w *world) latestVersion(name string) *srcVersion {
 	w.regMu.Lock()
 	defer w.regMu.Unlock()
